@@ -37,6 +37,8 @@ def t_dict(T):
         d = {"type": "case", "method": "upper" if T["flag"] else "lower"}
     elif ty == "setvalue":
         d = {"type": "set_value", "value": uncps(T["s2"])}
+    elif ty == "hashes":
+        d = {"type": "hashes_fields", "valid_hash_algos": [uncps(a) for a, _ in T["m"]], "field_prefix": uncps(T["s1"]), "drop_algo_prefix": bool(T["flag"])}
     elif ty == "nest":
         d = {"type": "nest", "items": [t_dict(s) for s in T["sub"]]}
     else:
